@@ -70,13 +70,10 @@ theorem record_valid (b : Bytes) (eoh i : Nat) (segs segs' : List Seg) (k : Key)
     have hk' : (⟨k.p, k.e, if k.p ≠ 1 then 0 else lang⟩ : Key) = k := by
       rw [← hl]
     rw [hk']
-  · obtain ⟨_, h2, lang, h4, hl⟩ := hm
+  · obtain ⟨hd12, h2, lang, h4, hl⟩ := hm
+    have h12o : ¬ (o > sub32 b.length 12) := by rw [hs12]; omega
     unfold lenLang
     dsimp only
-    rw [if_neg (by omega)]
-    rw [rd32_of_slice b d o 4 hs (by omega), rd16_of_slice b d o 10 hs (by omega), h2, h4]
-    dsimp only
-    rw [if_neg (by omega)]
     sorry
   · obtain ⟨_, h2, hl⟩ := hm
     unfold lenLang
